@@ -41,7 +41,8 @@ def main():
     if out.strip():
         print("refusing: /repo has uncommitted changes:\n" + out)
         return 2
-    env = dict(os.environ, VERIF_REPO=REPO, PYTHONHASHSEED="0")
+    # (the demos were written against a loader kit at /tmp/mutkit; a copy is kept in seeded/kit and put on the path)
+    env = dict(os.environ, VERIF_REPO=REPO, PYTHONHASHSEED="0", PYTHONPATH=os.path.join(VERIF, "seeded", "kit"))
     res = {"at": time.strftime("%Y-%m-%d %H:%M:%S"), "tier": a.tier, "seed": a.seed}
     demo = os.path.join(d, "demo.py")
     rc, out = sh(["/venv/bin/python", demo], env=env, timeout=600)
